@@ -32,6 +32,16 @@ CHECKS = {
    text="(A) SerializeCanonical vs the JDK canonicaliser for the declared algorithm at every apex of every document of the signed classes (2232 ClickOnce manifest variants signed through the real pipeline, 161 VSIX packages, 1132 AppX manifests) - the general family (depth<=3 trees x namespace/attribute/text/prolog alphabets, ~280k (doc,apex) pairs quick, ~5M thorough) is tallied as observation only; (B) every single edit at every site of signed manifests and VSIX signature parts, classified as meaning-preserving or -changing by the JDK canonical form, must be followed by relic verify and the JDK validator; (C) ECDSA SignatureValue width for every (|r|,|s|) leading-zero class on P-256/384/521 via a scripted signer; (D) publicKeyToken / publisher / issuerKeyHash against independent computations.",
    note="Trusted: JDK 17 canonicaliser and javax.xml.crypto.dsig, gen/xmlgen lexical model. Deviations on generic documents outside the classes relic signs are reported as outcome classes, not violations. 16 deviation classes of relic's etree-based canonicaliser are listed in KNOWN_FINDINGS.txt by root cause; two were repaired (attribute order by namespace URI, fixed-width ECDSA).",
    ref="4/C19"),
+ "C15": dict(level="model_checking", engine="E2 deviation/full-product enumeration of environment answers in virtual time (mc.Explore) + E3 BFS for the key cache",
+   technique="stateless exhaustive exploration of all per-attempt outcome sequences x cancellation points on the real retry loop under a virtual clock and virtual timeout contexts; explicit enumeration through the real RPC handler; BFS to fixpoint over key-cache histories",
+   text="(a) every sequence of 15 scripted per-attempt outcomes up to the configured limit (limits 1,2,3,default 5,-1; thorough also 4 and 7 with the full alphabet to depth 4) x caller cancel/deadline before the call, during every attempt and during every back-off, run on the real token/worker doRetry/doOnce compiled against verif/shim/vtime+vcontext (no real sleeping: 115k executions quick, 3.7M thorough) and judged by a reference retry model (attempt budget, transient vs permanent, same request body on every attempt, success iff an attempt succeeded, promptness, classification via errors.As); (b) scripted token error classes x {getKey, sign} through the real workercmd handler installed as the worker client's transport, plus 7 cookie variants x 3 paths; (c) BFS over key-cache operation histories (pinned ids, expiry, rotation, failing token).",
+   note="Trusted: vtime/vcontext shims (virtual clock and deadline contexts; cancellation propagates synchronously), the scripted transport, the reference retry model. Back-off is judged for shape, not constants. PKCS#11 itself is not available; its error type is constructed through an export file added by overlay.",
+   ref="4/C15"),
+ "C18": dict(level="model_checking", engine="E3 history search over insert/replace operations on E4-generated CFB files",
+   technique="explicit-state depth-bounded search over insert/replace/delete signature-stream histories on every file of a bounded-exhaustive MS-CFB family, each state judged by an independent MS-CFB validator (sector accounting, chains, directory red-black/ordering) and reference MSI digests",
+   text="664 generated compound files quick / 1657 thorough (sector size 512/4096; stream sizes around the 64-byte mini sector and 4096-byte cutoff; mini stream absent/present/exactly one sector; free-sector patterns; directory sizes at sector multiples; case-colliding, MSI-encoded and 31-unit names; nested storage; FAT exactly full; DIFAT growth) plus dummy.msi x all histories of depth <=3 (thorough 4) over 8 insert/replace operations on the real comdoc + InsertMSISignature code: 250k states quick, 5.8M thorough. After every step the harness-owned validator checks the whole container, pre-existing streams/storages are byte- and metadata-identical, DigestMsiTar(MsiToTar(f)) == DigestMSI(f) == reference imprint, and 132 full-pipeline sign/re-sign/verify runs.",
+   note="Trusted: gen/cfbgen writer+validator (self-tested with 23 seeded corruptions each run; dummy.msi from Microsoft tooling validates cleanly), the harness reference MSI digest. Not covered: storages nested deeper than one level, v4 DIFAT growth (needs ~446 MiB), files > 2 GiB.",
+   ref="4/C18"),
 }
 NOT_YET = {}
 ALL = ["C%02d" % i for i in range(1, 21)]
